@@ -198,6 +198,7 @@ def atomic_write_octave(
             }
 
     # Step 4: Atomic write
+    temp_path = None
     try:
         # Ensure parent directory exists
         path_obj.parent.mkdir(parents=True, exist_ok=True)
@@ -248,9 +249,14 @@ def atomic_write_octave(
             raise
 
     except Exception as e:
+        # The temporary file's name is random: keep it out of the message so
+        # that the same failing call always reports the same error.
+        detail = str(e)
+        if temp_path:
+            detail = detail.replace(temp_path, "<temporary file>")
         return {
             "status": "error",
-            "error": f"Write error: {str(e)}",
+            "error": f"Write error: {detail}",
             "path": target_path,
         }
 
